@@ -27,6 +27,12 @@ RULE = ('Hypothesis draws (N in 0..70, batch_size in 1..40 biased to N-1/N/N+1/'
         '(remainder, batch_size, buckets). A case is non-trivial when N>0 and '
         '(N mod B != 0 or B>N or (buckets>1 and B is not a power of two)); '
         'distinct = distinct canonical case JSON.')
+RULE += (
+    ' '
+    'Later widenings: datasets sliced from a parent that was in use; column-major features; a'
+    ' quarter of the views start with an abandoned pass; preprocessor chains handed over as a'
+    ' generator or as a list emptied afterwards; hparams built positionally; a third of the c'
+    'ases edit the batches of an earlier pass before the next one.')
 ASSUMPTIONS = [
     'batch preprocessors are deterministic and strictly per-example, as '
     'BatchPreprocessor documents',
